@@ -224,7 +224,7 @@ func Random(g *gen.G, cur *sbom.NodeList, kinds []Kind, sh gen.Shape) *Op {
 		o.ID = anyID()
 		o.Depth = 1 + g.Int(4)
 	case ByPurlType:
-		o.Purl = gen.Pick(g, []string{"npm", "golang", "deb", "none", ""})
+		o.Purl = gen.Pick(g, []string{"npm", "golang", "deb", "none", "", "go", "git", "/"})
 	}
 	return o
 }
